@@ -384,7 +384,8 @@ def triage_table():
 def run_check(prop, tier, rule_fn, replay=None):
     t0 = time.time()
     seed = int(os.environ.get("VERIF_SEED", "0") or 0)
-    evidence_path = os.path.join(VERIF, "evidence", f"{prop}.json")
+    evdir = os.environ.get("VSA_EVIDENCE_DIR") or os.path.join(VERIF, "evidence")
+    evidence_path = os.path.join(evdir, f"{prop}.json")
     os.makedirs(os.path.dirname(evidence_path), exist_ok=True)
     try:
         repo = Repo()
@@ -420,7 +421,7 @@ def run_check(prop, tier, rule_fn, replay=None):
 
     for f, e in knowns:
         print(f"KNOWN-FINDING: property={prop} {f.key} -- {e.get('what', f.message)}")
-    replay_dir = os.path.join(VERIF, "evidence", "replay")
+    replay_dir = os.path.join(evdir, "replay")
     for i, f in enumerate(violations):
         os.makedirs(replay_dir, exist_ok=True)
         rp = os.path.join(replay_dir, f"{prop}-{hashlib.sha1(f.key.encode()).hexdigest()[:10]}.json")
